@@ -126,6 +126,7 @@ def judge(family, case, rec):
         A = case["A"]
         out = gmat.masks(A)
         seeds = (case["rs"],)
+    A = gmat.hostile_array(A, sum(out) + len(out))
     p = len(out)
     E = G.n_edges(out)
     full = p * (p - 1) // 2
